@@ -236,6 +236,147 @@
                     }
                 }
             }
+
+            // hsl r g b: the C17 forward clauses against an f64 hexcone oracle
+            "hsl" => {
+                let px = [fb(&a[0]), fb(&a[1]), fb(&a[2])];
+                let o = Hsl::from(LinearRgb::new(vec![px], 1, 1).unwrap()).data()[0];
+                let (r, g, b) = (px[0] as f64, px[1] as f64, px[2] as f64);
+                let mx = r.max(g).max(b); let mn = r.min(g).min(b); let c = mx - mn; let l = (mx + mn) / 2.0;
+                let mut bad = Vec::new();
+                if !(o[0] >= 0.0 && o[0] < 360.0) { bad.push(format!("H={} outside [0,360)", o[0])); }
+                if !(o[1] >= 0.0 && o[1] <= 1.0) { bad.push(format!("S={} outside [0,1]", o[1])); }
+                if !(o[2] >= 0.0 && o[2] <= 1.0) { bad.push(format!("L={} outside [0,1]", o[2])); }
+                if (o[2] as f64 - l).abs() > 1e-6 { bad.push(format!("L={} vs {}", o[2], l)); }
+                if l >= 0.01 && l <= 0.99 { let s = c / (1.0 - (2.0 * l - 1.0).abs()); if (o[1] as f64 - s).abs() > 1e-4 { bad.push(format!("S={} vs {}", o[1], s)); } }
+                if c >= 0.01 {
+                    let mut h = if mx == r { 60.0 * ((g - b) / c) } else if mx == g { 60.0 * ((b - r) / c + 2.0) } else { 60.0 * ((r - g) / c + 4.0) };
+                    if h < 0.0 { h += 360.0; }
+                    let d = (o[0] as f64 - h).abs(); let d = d.min(360.0 - d);
+                    if d > 0.01 { bad.push(format!("H={} vs {}", o[0], h)); }
+                }
+                if c == 0.0 && !(o[0] == 0.0 && o[1] == 0.0 && o[2] == px[0]) { bad.push(format!("grey -> {:?}", o)); }
+                out(!bad.is_empty(), format!("{:?} -> {:?}: {}", px, o, if bad.is_empty() { "hexcone ok".to_string() } else { bad.join("; ") }));
+            }
+
+            // yuv dec|rt T bd full mc y u v   |   yuv enc T bd full mc r g b   : C01 / C08 / C02 as written, f64 oracle from the standard's Kr/Kb
+            "yuv" => {
+                fn krkb(mc: MC) -> Option<(f64, f64)> {
+                    Some(match mc { MC::BT709 => (0.2126, 0.0722), MC::BT470M => (0.30, 0.11), MC::BT470BG | MC::ST170M => (0.299, 0.114),
+                        MC::ST240M => (0.212, 0.087), MC::BT2020NonConstantLuminance => (0.2627, 0.0593), _ => return None })
+                }
+                fn inv_oracle(mc: MC, p: [f64; 3]) -> [f64; 3] {
+                    if let Some((kr, kb)) = krkb(mc) {
+                        let kg = 1.0 - kr - kb;
+                        let r = p[0] + 2.0 * (1.0 - kr) * p[2]; let b = p[0] + 2.0 * (1.0 - kb) * p[1];
+                        [r, (p[0] - kr * r - kb * b) / kg, b]
+                    } else { [p[0] - p[1] + p[2], p[0] + p[1], p[0] - p[1] - p[2]] }
+                }
+                fn fwd_oracle(mc: MC, c: [f64; 3]) -> [f64; 3] {
+                    if let Some((kr, kb)) = krkb(mc) {
+                        let y = kr * c[0] + (1.0 - kr - kb) * c[1] + kb * c[2];
+                        [y, (c[2] - y) / (2.0 * (1.0 - kb)), (c[0] - y) / (2.0 * (1.0 - kr))]
+                    } else { [0.25 * c[0] + 0.5 * c[1] + 0.25 * c[2], -0.25 * c[0] + 0.5 * c[1] - 0.25 * c[2], 0.5 * c[0] - 0.5 * c[2]] }
+                }
+                fn so(bd: u8, full: bool, chroma: bool) -> (f64, f64) {
+                    let k = f64::from(1u32 << (bd - 8)); let m = f64::from((1u32 << bd) - 1);
+                    if full { (m, if chroma { f64::from(1u32 << (bd - 1)) } else { 0.0 }) } else if chroma { (224.0 * k, 128.0 * k) } else { (219.0 * k, 16.0 * k) }
+                }
+                let bd = a[2].parse::<u8>().unwrap(); let full = a[3] == "1"; let mc = MC_ALL[a[4].parse::<usize>().unwrap()];
+                let c = cfg(bd, full, mc, 0, 0);
+                let maxv = f64::from((1u32 << bd) - 1);
+                let is8 = a[1] == "u8";
+                let decode = |y: u16, u: u16, v: u16| -> [f32; 3] {
+                    if is8 { Rgb::try_from(&Yuv::new(Frame { planes: [Plane::from_slice(&[y as u8], 1), Plane::from_slice(&[u as u8], 1), Plane::from_slice(&[v as u8], 1)] }, c).unwrap()).unwrap().data()[0] }
+                    else { Rgb::try_from(&Yuv::new(Frame { planes: [Plane::from_slice(&[y], 1), Plane::from_slice(&[u], 1), Plane::from_slice(&[v], 1)] }, c).unwrap()).unwrap().data()[0] }
+                };
+                let encode = |px: [f32; 3]| -> [u16; 3] {
+                    let rgb = Rgb::new(vec![px], 1, 1, TC::BT1886, CP::BT709).unwrap();
+                    if is8 { let y = Yuv::<u8>::try_from((&rgb, c)).unwrap(); [u16::from(y.data()[0].p(0, 0)), u16::from(y.data()[1].p(0, 0)), u16::from(y.data()[2].p(0, 0))] }
+                    else { let y = Yuv::<u16>::try_from((&rgb, c)).unwrap(); [y.data()[0].p(0, 0), y.data()[1].p(0, 0), y.data()[2].p(0, 0)] }
+                };
+                match a[0].as_str() {
+                    "dec" | "rt" => {
+                        let code = [a[5].parse::<u16>().unwrap(), a[6].parse::<u16>().unwrap(), a[7].parse::<u16>().unwrap()];
+                        let got = decode(code[0], code[1], code[2]);
+                        if a[0] == "dec" {
+                            let mut n = [0f64; 3];
+                            for j in 0..3 { let (s, o) = so(bd, full, j > 0); let x = (f64::from(code[j]) - o) / s; n[j] = if j == 0 { x.clamp(0.0, 1.0) } else { x.clamp(-0.5, 0.5) }; }
+                            let want = inv_oracle(mc, n);
+                            let err = (0..3).map(|i| (f64::from(got[i]) - want[i]).abs()).fold(0.0, f64::max);
+                            out(err > 3e-6, format!("decode {:?} {}bit full={} {:?}: got {:?} want {:?} err {:.3e}", mc, bd, full, code, got, want, err));
+                        } else {
+                            let back = encode(got);
+                            let k = 1u16 << (bd - 8);
+                            let mut bad = false;
+                            for j in 0..3 {
+                                let legal = if full { code[j] } else { code[j].clamp(16 * k, if j == 0 { 235 * k } else { 240 * k }) };
+                                let ok = back[j] == legal || (full && j > 0 && code[j] == 0 && back[j] == 1);
+                                bad |= !ok;
+                            }
+                            out(bad, format!("round trip {:?} {}bit full={} {:?} -> {:?} -> {:?}", mc, bd, full, code, got, back));
+                        }
+                    }
+                    _ => {
+                        let px = [fb(&a[5]), fb(&a[6]), fb(&a[7])];
+                        let inbox = px.iter().all(|v| v.is_finite() && *v >= -0.5 && *v <= 1.5);
+                        let got = encode(px);
+                        let id = fwd_oracle(mc, [f64::from(px[0]), f64::from(px[1]), f64::from(px[2])]);
+                        let mut worst = 0f64;
+                        for j in 0..3 { let (s, o) = so(bd, full, j > 0); let w = (s * id[j] + o).clamp(0.0, maxv); worst = worst.max((f64::from(got[j]) - w).abs()); }
+                        out(inbox && worst > 0.5 + 1e-6 * (maxv + 1.0), format!("encode {:?} {}bit full={} {:?}: codes {:?}, worst distance to the H.273 quantisation {:.6} (pixel in [-0.5,1.5]^3: {})", mc, bd, full, px, got, worst, inbox));
+                    }
+                }
+            }
+
+            // libm: does this build's powf/expf/cbrtf agree bit for bit with libm? (C20 wiring replay; run in a --no-default-features build)
+            "libm" => {
+                let pts = [0.3f32, 0.7, 1.3, 1.9, 0.018, 0.9];
+                let mut diff = 0;
+                for x in pts { for y in [0.45f32, 2.4, 1.0 / 2.2] { if yuvxyb_math::powf(x, y).to_bits() != x.powf(y).to_bits() { diff += 1; } } }
+                for x in pts { if yuvxyb_math::expf(x).to_bits() != x.exp().to_bits() { diff += 1; } if yuvxyb_math::cbrtf(x).to_bits() != x.cbrt().to_bits() { diff += 1; } }
+                out(diff > 0, format!("{} of 30 probe results differ from libm: the fast kernels are {} in this build", diff, if diff > 0 { "compiled in" } else { "not used" }));
+            }
+
+            // neutral yuv T bd full mc ycode | prim in|out cp gbits | curve idx | xyb gbits   (C16)
+            "neutral" => {
+                match a[0].as_str() {
+                    "yuv" => {
+                        let bd = a[2].parse::<u8>().unwrap(); let full = a[3] == "1"; let mc = MC_ALL[a[4].parse::<usize>().unwrap()];
+                        let y = a[5].parse::<u16>().unwrap(); let mid = 1u16 << (bd - 1);
+                        let c = cfg(bd, full, mc, 0, 0);
+                        let o = if a[1] == "u8" { Rgb::try_from(&Yuv::new(Frame { planes: [Plane::from_slice(&[y as u8], 1), Plane::from_slice(&[mid as u8], 1), Plane::from_slice(&[mid as u8], 1)] }, c).unwrap()).unwrap().data()[0] }
+                            else { Rgb::try_from(&Yuv::new(Frame { planes: [Plane::from_slice(&[y], 1), Plane::from_slice(&[mid], 1), Plane::from_slice(&[mid], 1)] }, c).unwrap()).unwrap().data()[0] };
+                        let k = 1u16 << (bd - 8);
+                        let (black, white) = if full { (0, ((1u32 << bd) - 1) as u16) } else { (16 * k, 235 * k) };
+                        let spread = o[0].max(o[1]).max(o[2]) - o[0].min(o[1]).min(o[2]);
+                        let mut bad = spread > 5.0e-7;
+                        if y == black { bad |= o != [0.0, 0.0, 0.0]; }
+                        if y == white { bad |= o.iter().any(|v| (v - 1.0).abs() > 1.0e-6); }
+                        out(bad, format!("{:?} {}bit full={} Y={} neutral chroma -> {:?} spread {:e}", mc, bd, full, y, o, spread));
+                    }
+                    "prim" => {
+                        let p = CP_ALL[a[2].parse::<usize>().unwrap()]; let g = fb(&a[3]);
+                        let o = if a[1] == "in" { LinearRgb::try_from(Rgb::new(vec![[g, g, g]], 1, 1, TC::Linear, p).unwrap()).unwrap().data()[0] }
+                            else { Rgb::try_from((LinearRgb::new(vec![[g, g, g]], 1, 1).unwrap(), TC::Linear, p)).unwrap().data()[0] };
+                        out(o.iter().any(|v| (v - g).abs() > 1.0e-5), format!("{:?} {} grey {} -> {:?}", p, a[1], g, o));
+                    }
+                    "curve" => {
+                        let curves = [TC::BT1886, TC::ST170M, TC::ST240M, TC::BT2020Ten, TC::BT2020Twelve, TC::BT470M, TC::BT470BG, TC::SRGB, TC::XVYCC, TC::PerceptualQuantizer, TC::HybridLogGamma, TC::Linear];
+                        let t = curves[a[1].parse::<usize>().unwrap()];
+                        let lin = |x: f32| LinearRgb::try_from(Rgb::new(vec![[x, x, x]], 1, 1, t, CP::BT709).unwrap()).unwrap().data()[0][1];
+                        let gam = |x: f32| Rgb::try_from((LinearRgb::new(vec![[x, x, x]], 1, 1).unwrap(), t, CP::BT709)).unwrap().data()[0][1];
+                        let tol = if t == TC::PerceptualQuantizer { 5.7e-4 } else { 2.5e-4 };
+                        let v = [lin(0.0), gam(0.0), lin(1.0), gam(1.0)];
+                        out(v[0].abs() > 1e-6 || v[1].abs() > 1e-6 || (v[2] - 1.0).abs() >= 2.5e-4 || (v[3] - 1.0).abs() >= tol, format!("{:?}: lin(0),gam(0),lin(1),gam(1) = {:?}", t, v));
+                    }
+                    _ => {
+                        let g = fb(&a[1]);
+                        let o = Xyb::from(LinearRgb::new(vec![[g, g, g]], 1, 1).unwrap()).data()[0];
+                        out(o[0].abs() > 1e-6 || (o[1] - o[2]).abs() > 1e-6 || (g == 0.0 && o.iter().any(|v| v.abs() > 1e-6)), format!("grey {} -> XYB {:?}", g, o));
+                    }
+                }
+            }
             _ => { eprintln!("unknown replay kind {}", kind); std::process::exit(64); }
         }
     }
